@@ -3,8 +3,11 @@
 cd "$(dirname "$0")/.."
 [ -n "$VP_RUN_REPO" ] && export VERIF_REPO=$VP_RUN_REPO
 ./setup.sh >/dev/null 2>&1
+fails=0
 for p in C01 C02 C03 C04 C05 C06 C07 C08 C09 C10 C11 C12 C13 C14 C15 C16 C17 C18 C19 C20; do
   s=$(date +%s); out=$(./check $p --tier thorough 2>&1); rc=$?
   echo "$p rc=$rc $(( $(date +%s) - s ))s :: $(echo "$out" | grep -v '^KNOWN' | tail -1)"
-  [ $rc -ne 0 ] && echo "$out" | grep -v '^KNOWN' | tail -5
+  if [ $rc -ne 0 ]; then fails=$((fails+1)); echo "$out" | grep -v '^KNOWN' | tail -5; fi
 done
+echo "thorough_all: $fails check(s) failed"
+[ $fails -eq 0 ]
